@@ -33,6 +33,13 @@ def test_lines(path):
         if l.strip().startswith("#[cfg(test)]"):
             return set(range(i + 1, len(src) + 2)), src
     return set(), src
+# compact dump for lib/covunion.py (blind spots over all checks)
+dump = {}
+for (fl, l0, c0, l1, c1), cnt in reg.items():
+    if "/src/" in fl and "/.cargo/" not in fl and "/rustc/" not in fl:
+        rel = re.sub(r"^.*?/(utils|math|crypto|fri|air|prover|verifier|winterfell)/", r"\1/", fl)
+        dump[f"{rel}:{l0}:{c0}:{l1}:{c1}"] = 1 if cnt else 0
+json.dump(dump, open(os.path.join(os.path.dirname(exp), "regions.json"), "w"))
 tot_r = tot_c = 0
 out = []
 for fl in sorted(by_file):
